@@ -204,3 +204,25 @@ Proof.
     rewrite Hg. rewrite (cm_store_keeps _ _ [] Ho).
     destruct (equal oid_eqb objs cl && pol_none p); reflexivity.
 Qed.
+
+(* ListClusterInventoryObjs reads what GetClusterObjs reads: no entry exactly when there is no
+   inventory object, an error exactly when the object cannot be loaded, otherwise the loaded set *)
+Lemma client_list_loads : forall s,
+  (client_list s = Err <-> client_get s = Err)
+  /\ (forall l, client_list s = Ok (Some l) <-> s <> None /\ client_get s = Ok l)
+  /\ (client_list s = Ok None <-> s = None).
+Proof.
+  intros [ids|].
+  - unfold client_list. destruct (client_get (Some ids)) as [l0|] eqn:E.
+    + split; [split; discriminate|]. split.
+      * intros l. split.
+        -- intros H. inversion H; subst. split; [discriminate|reflexivity].
+        -- intros [_ H]. inversion H; subst. reflexivity.
+      * split; discriminate.
+    + split; [tauto|]. split.
+      * intros l. split; [discriminate|]. intros [_ H]. discriminate.
+      * split; discriminate.
+  - simpl. split; [split; discriminate|]. split.
+    + intros l. split; [discriminate|]. intros [H _]. now elim H.
+    + tauto.
+Qed.
